@@ -3,6 +3,9 @@
 \* for the yield-point driver harness/cmd/stopwork (0 = stopper, -1 = stop function goroutine, i = item).
 EXTENDS StopProtocol, Json
 
+CONSTANT LateItems   \* items whose function returns only after the stop function has finished its bookkeeping and the
+                     \* stopper waits for completion (a random walk rarely delays an item that long)
+
 VARIABLES hist, done
 gvars == <<vars, hist, done>>
 
@@ -13,7 +16,9 @@ Label == IF spc' # spc THEN 0
 GenInit == Init /\ hist = <<>> /\ done = FALSE
 Terminal == /\ spc = "end" /\ fpc \in {"idle", "done"}
             /\ \A i \in Items : ipc[i] \in {"idle", "done"}
-GenStep == /\ ~done /\ Next /\ hist' = Append(hist, Label) /\ done' = done
+LateOK == \A i \in Items \cap LateItems :
+              (ipc[i] = "running" /\ ipc'[i] = "returned") => (spc = "s5" /\ fpc \in {"done", "idle"})
+GenStep == /\ ~done /\ Next /\ LateOK /\ hist' = Append(hist, Label) /\ done' = done
 GenEmit == /\ ~done /\ Terminal /\ done' = TRUE
            /\ PrintT(<<"@@", ToJson([kinds |-> [i \in Items |-> Kind[i]], hasStopFn |-> HasStopFn, policy |-> hist])>>)
            /\ UNCHANGED <<vars, hist>>
